@@ -240,6 +240,7 @@ def finish(agg, level, coverage, assumptions, floors=()):
     cov["distinct_sets"] = {k: len(v) for k, v in sorted(agg.distinct.items())}
     cov.setdefault("samples", agg.samples[:12] or ["(no sample recorded)"])
     cov["shards"] = agg.shards
+    cov["environment_variables_the_code_under_test_consulted(unknown to the harness; re-run with each set)"] = getattr(agg, "env_names", [])
     cov["known_findings_seen"] = {k: len(v) for k, v in sorted(seen_known.items())}
     cov["new_violation_keys"] = sorted(new)
     cov["floors"] = [{"floor": d, "met": bool(ok)} for d, ok in floors]
